@@ -103,7 +103,7 @@ func runWorker(args []string) int {
 	}
 	// Unbounded recursion must surface as a (fatal) stack overflow at moderate depth instead of
 	// consuming gigabytes first; legitimate, depth-limited recursion needs far less than this.
-	debug.SetMaxStack(256 << 20)
+	debug.SetMaxStack(64 << 20)
 	skipSet := map[string]bool{}
 	for _, s := range strings.Split(*skip, ",") {
 		if s != "" {
@@ -229,6 +229,11 @@ func runDriver(args []string) int {
 	os.MkdirAll(filepath.Join(root, "evidence"), 0o755)
 	evPath := filepath.Join(root, "evidence", id+".json")
 	os.Remove(evPath)
+	if old, _ := filepath.Glob(filepath.Join(root, "replays", id+"-*.json")); len(old) > 0 {
+		for _, f := range old {
+			os.Remove(f) // replays of an earlier run of this property
+		}
+	}
 
 	total := mon.NewReport()
 	var notes []string
